@@ -66,6 +66,23 @@ CallForward(s, c, t, v, reverts) ==
         /\ Grow(Rec(IF reverts THEN "CallRevert" ELSE "CallForward", s, t, v, ok))
   /\ UNCHANGED <<locked, escrow, contracts>>
 
+(* wrapped Ethereum transaction (type 188): nonce-checked before anything else; with a nonce
+   that is not the sender's next one it is evicted with no effect at all (no fee), otherwise it
+   behaves like a contract call that forwards its value *)
+EthCall(s, c, t, v, nonceOk) ==
+  /\ Room /\ s \notin contracts
+  /\ IF ~nonceOk
+       THEN /\ UNCHANGED bal
+            /\ Grow(Rec("EthStale", s, t, v, FALSE))
+       ELSE LET f == FeeOf(s)
+                b1 == Move(bal, s, Fee, f)
+                g  == IF b1[s] >= v + 1 THEN 1 ELSE 0
+                ok == f = 1 /\ g = 1
+                b2 == IF ok THEN Move(Move(b1, s, c, v), c, t, v) ELSE b1
+            IN /\ bal' = Move(b2, s, Fee, IF f = 1 THEN g ELSE 0)
+               /\ Grow(Rec("EthForward", s, t, v, ok))
+  /\ UNCHANGED <<locked, escrow, contracts>>
+
 Deploy(s, c, v) ==
   /\ Room /\ c \notin contracts /\ c # s /\ s \notin contracts
   /\ LET f == FeeOf(s)  b1 == Move(bal, s, Fee, f)  ok == f = 1 /\ b1[s] >= v + 1 IN
@@ -110,6 +127,7 @@ Mature(t) ==
 Next ==
   \/ \E s, t \in Accounts, v \in 0..MaxAmt : Transfer(s, t, v)
   \/ \E s, c, t \in Accounts, v \in 0..MaxAmt, r \in BOOLEAN : CallForward(s, c, t, v, r)
+  \/ \E s, c, t \in Accounts, v \in 0..MaxAmt, n \in BOOLEAN : EthCall(s, c, t, v, n)
   \/ \E s, c \in Accounts, v \in 0..MaxAmt : Deploy(s, c, v)
   \/ \E s, c, t \in Accounts : SelfDestruct(s, c, t)
   \/ \E s \in Accounts, v \in 1..MaxAmt : Stake(s, v) \/ Refund(s, v)
